@@ -3,7 +3,17 @@
 //   strings are hex UTF-16 units; "-" = empty string; "0" = null pointer / not formatted
 //   value: n | t | f | I<int> | u<uint> | i<qlonglong> | U<qulonglong> | d<double holding an integer> | F<float holding an integer> | s<hex16> | a<count> v... | o<count> (k v)...
 // the virtual clock is advanced by 61.001 s between the creation of the message and format()
-// output line: <time().toMSecsSinceEpoch()> <threadId> <hex of qVersion()> <hex of format()>
+//   optional suffix "|" + steps: the steps are turned into the handlers of a real Pipeline which then processes the message
+//     U <n> (k v)*n   a FunctionAttrHandler returning this hash (AttrHandler::process -> LogMessage::updateAttributes)
+//     A <k> <v>       a handler calling setAttribute(k, v)      S <n> (k v)*n   a handler calling setAttributes({...})
+//     R <k>           a handler calling removeAttribute(k)
+//     ( <scoped>      the following steps go to a nested Pipeline(scoped)        )   end of the nested pipeline
+//     F <sel>         SentryFormatter object <sel> as the next handler + a handler that captures formattedMessage(): one record
+//   <sel>: 0 = own object A, 1 = own object B, 2 = SentryFormatter::instance(), 3 = A is destroyed and re-created first, then A
+//   without a suffix the message is formatted once by A.format(m)
+// argv[1] = name of a QTextCodec to install with QTextCodec::setCodecForLocale first ("-" = leave the default): the
+//   event text must not depend on the locale codec of the process
+// output line: <time().toMSecsSinceEpoch()> <threadId> <hex of qVersion()> <hex of record>...
 #ifdef VERIF_HEADER_ONLY
 #include "qtlogger.h"
 #else
@@ -15,6 +25,8 @@
 #include <sys/syscall.h>
 #include <time.h>
 #include <unistd.h>
+#include <vector>
+#include <QTextCodec>
 using namespace QtLogger;
 // virtual wall clock (QDateTime::currentDateTime() of Qt 5.15 reads gettimeofday)
 static long long g_ms = 1700000000000LL;
@@ -63,10 +75,27 @@ static QVariant val(std::istringstream &is)
     if (k == 'o') { int n = std::stoi(r); QVariantMap m; for (int i = 0; i < n; i++) { std::string kk; is >> kk; auto v = val(is); m.insert(unhex(kk), v); } return m; }
     return QVariant();
 }
-int main()
+static QVariantHash hash_of(std::istringstream &is)
 {
+    int n; is >> n; QVariantHash h;
+    for (int i = 0; i < n; i++) { std::string k; is >> k; QVariant v = val(is); h.insert(unhex(k), v); }
+    return h;
+}
+int main(int argc, char **argv)
+{
+    if (argc > 1 && std::string(argv[1]) != "-") {
+        QTextCodec *codec = QTextCodec::codecForName(argv[1]);
+        if (!codec) { std::cerr << "no such codec: " << argv[1] << "\n"; return 3; }
+        QTextCodec::setCodecForLocale(codec);
+    }
     std::string line;
-    SentryFormatter sf;
+    SentryFormatterPtr fa = SentryFormatterPtr::create(), fb = SentryFormatterPtr::create();
+    auto formatter = [&](int sel) -> SentryFormatterPtr {
+        if (sel == 1) return fb;
+        if (sel == 2) return SentryFormatter::instance();
+        if (sel == 3) { fa.reset(); fa = SentryFormatterPtr::create(); }
+        return fa;
+    };
     while (std::getline(std::cin, line)) {
         std::istringstream is(line);
         long long ms; int type, ln, na; std::string msg, fmt, cat, file, fn;
@@ -80,6 +109,30 @@ int main()
         for (int i = 0; i < na; i++) { std::string k; is >> k; QVariant v = val(is); m.setAttribute(unhex(k), v); }
         const long long created = m.time().toMSecsSinceEpoch();
         g_ms += 61001; // the event is serialised later than the message was created: its timestamp must still be the message's
-        std::cout << created << " " << m.threadId() << " " << hex(QString::fromLatin1(qVersion())) << " " << hex(sf.format(m)) << "\n";
+        std::cout << created << " " << m.threadId() << " " << hex(QString::fromLatin1(qVersion()));
+        std::string tok;
+        if (is >> tok && tok == "|") {
+            std::vector<QString> records;
+            PipelinePtr root = PipelinePtr::create();
+            std::vector<PipelinePtr> stack { root };
+            while (is >> tok) {
+                Pipeline &p = *stack.back();
+                if (tok == "U") { QVariantHash h = hash_of(is); p << FunctionAttrHandlerPtr::create([h](const LogMessage &) { return h; }); }
+                else if (tok == "S") { QVariantHash h = hash_of(is); p << FunctionHandlerPtr::create([h](LogMessage &x) { x.setAttributes(h); return true; }); }
+                else if (tok == "A") { std::string k; is >> k; QVariant v = val(is); QString kk = unhex(k);
+                                       p << FunctionHandlerPtr::create([kk, v](LogMessage &x) { x.setAttribute(kk, v); return true; }); }
+                else if (tok == "R") { std::string k; is >> k; QString kk = unhex(k);
+                                       p << FunctionHandlerPtr::create([kk](LogMessage &x) { x.removeAttribute(kk); return true; }); }
+                else if (tok == "(") { int scoped; is >> scoped; PipelinePtr n = PipelinePtr::create(scoped != 0); p << n; stack.push_back(n); }
+                else if (tok == ")") { if (stack.size() > 1) stack.pop_back(); }
+                else if (tok == "F") { int sel; is >> sel; p << formatter(sel);
+                                       p << FunctionHandlerPtr::create([&records](LogMessage &x) { records.push_back(x.formattedMessage()); return true; }); }
+            }
+            root->process(m);
+            for (const QString &r : records) std::cout << " " << hex(r);
+        } else {
+            std::cout << " " << hex(fa->format(m));
+        }
+        std::cout << "\n";
     }
 }
